@@ -14,7 +14,7 @@ returns) and every `depends_on` is a map (true of every Go map).
 namespace CV.Sel
 
 /-- the receiver is a well-formed project: a partition, and every `depends_on` has distinct keys -/
-def Good (p : Proj) : Prop := Partition p ∧ SvcWF p
+def Good (p : Proj) : Prop := Partition p ∧ SvcWF p ∧ NamesOK p
 
 /-! ## profiles -/
 
@@ -51,6 +51,14 @@ theorem disable_exact {p : Proj} (h : Partition p) (names : List String) :
     DisableSpec p names (withServicesDisabled p names) :=
   withServicesDisabled_spec h names
 
+/-- the disabled half of `WithServicesDisabled names`: a moved service is the old service minus its dependencies on
+the names listed **up to and including itself** (`upTo`).  So the result is a function of the receiver and of the
+argument *list*; the order of the arguments matters in exactly this way and in no other (`disable_exact` is
+symmetric in the names), and the iteration order of the maps does not matter at all (`disable_perm`). -/
+theorem disable_moved_exact {p : Proj} (h : Partition p) (names : List String) :
+    DisableMovedSpec p names (withServicesDisabled p names) :=
+  withServicesDisabled_movedSpec h names
+
 /-- after disabling, no remaining service depends on a removed one -/
 theorem no_dangling_after_disable {p : Proj} (h : Partition p) (names : List String) :
     NoDepOn (withServicesDisabled p names) names :=
@@ -59,32 +67,32 @@ theorem no_dangling_after_disable {p : Proj} (h : Partition p) (names : List Str
 /-! ## selecting -/
 
 /-- the walk of `ForEachService` never exhausts the model's fuel: the fuel is a modelling device, not behaviour -/
-theorem select_never_out_of_fuel {p : Proj} (h : Partition p) (names : List String) (pol : Policy) :
+theorem select_never_out_of_fuel {p : Proj} (h : Partition p) (nk : NamesOK p) (names : List String) (pol : Policy) :
     withSelectedServices p names pol ≠ .fuel := by
   unfold withSelectedServices
   split
   · simp
-  · have := forEachService_fuel h.1 names pol
+  · have := forEachService_fuel h.1 nk.services names pol
     cases hw : forEachService p names pol <;> simp_all
 
 /-- `WithSelectedServices names policy` keeps exactly the named services plus their transitive dependencies
 (or dependents, or nothing more), i.e. the least set containing the names and closed under the policy's edges -/
-theorem selected_eq_closure {p : Proj} (h : Partition p) {names : List String} (hn : names ≠ []) {pol : Policy}
+theorem selected_eq_closure {p : Proj} (h : Partition p) (nk : NamesOK p) {names : List String} (hn : names ≠ []) {pol : Policy}
     {q : Proj} (hq : withSelectedServices p names pol = .ok q) (x : String) :
     x ∈ keys q.services ↔ Reach p.services pol names x := by
   cases hw : forEachService p names pol with
   | ok set =>
     rw [withSelectedServices_ok h.1 hn hw] at hq
     cases hq
-    have hsub := forEachService_subset h.1 hn hw
-    rw [← forEachService_reach h.1 hn hw]
+    have hsub := forEachService_subset h.1 nk.services hn hw
+    rw [← forEachService_reach h.1 nk.services hn hw]
     show x ∈ keys (selectedPruned set p.services) ↔ _
     rw [mem_keys_selectedPruned]
     exact ⟨fun a => a.2, fun a => ⟨hsub x a, a⟩⟩
   | noSuchService =>
     have : names.isEmpty = false := by cases names <;> simp_all
     simp [withSelectedServices, hw, this] at hq
-  | outOfFuel => exact absurd hw (forEachService_fuel h.1 names pol)
+  | outOfFuel => exact absurd hw (forEachService_fuel h.1 nk.services names pol)
 
 /-- the executable successor list of the spec is the edge relation -/
 theorem mem_succ_iff {svcs : AL Svc} (nd : (keys svcs).Nodup) (pol : Policy) (x y : String) :
@@ -132,25 +140,36 @@ theorem closure_complete {svcs : AL Svc} (nd : (keys svcs).Nodup) (pol : Policy)
   | root hr hk => exact hc.1 _ hr hk
   | step _ e ih => exact hc.2 _ ih _ ((mem_succ_iff nd pol _ _).2 e)
 
+/-- the saturation always completes within `len(services)` rounds (pigeonhole), so the oracle's run-time check
+`Closed` (clause `closure-saturated`, kept as a guard) can never fail -/
+theorem closure_saturates (svcs : AL Svc) (pol : Policy) (roots : List String) :
+    Closed svcs pol roots (closure svcs pol roots) :=
+  closure_closed svcs pol roots
+
+/-- hence the executable closure of the spec *is* the inductive closure -/
+theorem closure_eq_reach {svcs : AL Svc} (nd : (keys svcs).Nodup) (pol : Policy) (roots : List String) (x : String) :
+    x ∈ closure svcs pol roots ↔ Reach svcs pol roots x :=
+  ⟨closure_sound nd pol roots x, closure_complete nd pol roots _ (closure_closed svcs pol roots) x⟩
+
 /-- the full description of a successful selection: for the closure `S` of the names, the result satisfies
 `SelectSpec` (enabled set = `S`, each selected service keeps exactly its dependencies inside `S`, nothing dangling,
 previously disabled services untouched), every service is conserved, resources are untouched -/
 theorem select_exact {p : Proj} (g : Good p) {names : List String} (hn : names ≠ []) {pol : Policy}
     {q : Proj} (hq : withSelectedServices p names pol = .ok q) :
     ∃ S, (∀ x, x ∈ S ↔ Reach p.services pol names x) ∧ SelectSpec p S q ∧ Conserved p q ∧ sameResources p q := by
-  obtain ⟨h, w⟩ := g
+  obtain ⟨h, w, nk⟩ := g
   cases hw : forEachService p names pol with
   | ok set =>
     rw [withSelectedServices_ok h.1 hn hw] at hq
     cases hq
-    have hsub := forEachService_subset h.1 hn hw
-    exact ⟨set, forEachService_reach h.1 hn hw, selectResult_spec h hsub,
+    have hsub := forEachService_subset h.1 nk.services hn hw
+    exact ⟨set, forEachService_reach h.1 nk.services hn hw, selectResult_spec h hsub,
       conserved_of_carried (selectResult_partition h hsub) (selectResult_carried h hsub w),
       withServicesDisabled_resources p _⟩
   | noSuchService =>
     have : names.isEmpty = false := by cases names <;> simp_all
     simp [withSelectedServices, hw, this] at hq
-  | outOfFuel => exact absurd hw (forEachService_fuel h.1 names pol)
+  | outOfFuel => exact absurd hw (forEachService_fuel h.1 nk.services names pol)
 
 /-- `WithSelectedServices` fails ("no such service") exactly when a requested name is not an enabled service or a
 service of the closure has a required dependency that is not an enabled service (only `IncludeDependencies` looks) -/
@@ -158,7 +177,7 @@ theorem select_error_iff {p : Proj} (g : Good p) {names : List String} (hn : nam
     withSelectedServices p names pol = .err ↔
       (∃ n ∈ names, n ∉ keys p.services) ∨
       ∃ x, Reach p.services pol names x ∧ MissingRequired p.services pol x := by
-  obtain ⟨h, w⟩ := g
+  obtain ⟨h, w, nk⟩ := g
   have ne : names.isEmpty = false := by cases names <;> simp_all
   have wf : ∀ kv ∈ p.services, (keys kv.2.deps).Nodup := fun kv hkv => w kv (List.mem_append_left _ hkv)
   cases hw : forEachService p names pol with
@@ -171,11 +190,11 @@ theorem select_error_iff {p : Proj} (g : Good p) {names : List String} (hn : nam
     · intro c; cases c
     · rintro (⟨n, hnm, hnk⟩ | ⟨x, hx, hm⟩)
       · exact absurd (List.any_eq_true.2 ⟨n, hnm, (missingFatal_top _ n).2 hnk⟩) C.1
-      · rcases C.2 x ((forEachService_reach h.1 hn hw x).2 hx) with a | a
+      · rcases C.2 x ((forEachService_reach h.1 nk.services hn hw x).2 hx) with a | a
         · cases a
         · exact absurd hm a
   | noSuchService =>
-    have E := walk_err h.1 pol _ _ _ _ hw
+    have E := walk_err h.1 nk.services pol _ _ _ _ hw
     simp only [ne, Bool.false_eq_true, if_false] at E
     constructor
     · intro _
@@ -185,7 +204,60 @@ theorem select_error_iff {p : Proj} (g : Good p) {names : List String} (hn : nam
       · exact .inr a
     · intro _
       simp [withSelectedServices, hw, ne]
-  | outOfFuel => exact absurd hw (forEachService_fuel h.1 names pol)
+  | outOfFuel => exact absurd hw (forEachService_fuel h.1 nk.services names pol)
+
+/-- the outcome the oracle expects (`selectWanted`) is the outcome of the model: rejected by one iff rejected by the other -/
+theorem selectWanted_none_iff {p : Proj} (g : Good p) {names : List String} (hn : names ≠ []) (pol : Policy) :
+    selectWanted p names pol = none ↔ withSelectedServices p names pol = .err := by
+  rw [select_error_iff g hn]
+  unfold selectWanted
+  by_cases h1 : names.any (fun n => decide (n ∉ keys p.services)) = true
+  · rw [if_pos h1]
+    obtain ⟨n, hn1, hn2⟩ := List.any_eq_true.1 h1
+    exact ⟨fun _ => .inl ⟨n, hn1, by simpa using hn2⟩, fun _ => rfl⟩
+  · rw [if_neg h1]
+    simp only []
+    have all : ∀ n ∈ names, n ∈ keys p.services := by
+      intro n hn1
+      apply Classical.byContradiction
+      intro c
+      exact h1 (List.any_eq_true.2 ⟨n, hn1, by simpa using c⟩)
+    by_cases h2 : (closure p.services pol names).any (fun x => decide (MissingRequired p.services pol x)) = true
+    · rw [if_pos h2]
+      obtain ⟨x, hx1, hx2⟩ := List.any_eq_true.1 h2
+      exact ⟨fun _ => .inr ⟨x, (closure_eq_reach g.1.1 pol names x).1 hx1, by simpa using hx2⟩, fun _ => rfl⟩
+    · rw [if_neg h2]
+      constructor
+      · intro c; cases c
+      · rintro (⟨n, a, b⟩ | ⟨x, a, b⟩)
+        · exact absurd (all n a) b
+        · exact absurd (List.any_eq_true.2 ⟨x, (closure_eq_reach g.1.1 pol names x).2 a, by simpa using b⟩) h2
+
+/-- the disabled half of a successful selection (after the `fix:` commit): a non-selected service is the old service
+minus its dependencies on the non-selected services whose name is not greater than its own -/
+theorem select_moved_exact {p : Proj} (h : Partition p) (nk : NamesOK p) {names : List String} (hn : names ≠ []) {pol : Policy}
+    {q : Proj} (hq : withSelectedServices p names pol = .ok q) (S : List String)
+    (hS : ∀ x, x ∈ S ↔ Reach p.services pol names x) : SelectMovedSpec p S q := by
+  cases hw : forEachService p names pol with
+  | ok set =>
+    rw [withSelectedServices_ok h.1 hn hw] at hq
+    cases hq
+    have same : ∀ x, x ∈ set ↔ x ∈ S := fun x => by rw [forEachService_reach h.1 nk.services hn hw, hS]
+    intro kv hkv hx
+    have := selectResult_movedSpec h set kv hkv hx
+    cases hs : lookup kv.1 p.services with
+    | none => simp [hs, sat] at this
+    | some s =>
+      simp only [hs, sat] at this ⊢
+      rw [this]
+      congr 1
+      apply List.filter_congr
+      intro d _
+      simp only [same]
+  | noSuchService =>
+    have : names.isEmpty = false := by cases names <;> simp_all
+    simp [withSelectedServices, hw, this] at hq
+  | outOfFuel => exact absurd hw (forEachService_fuel h.1 nk.services names pol)
 
 /-- after selecting, every dependency of a remaining service is a remaining service -/
 theorem no_dangling_after_select {p : Proj} (g : Good p) {names : List String} (hn : names ≠ []) {pol : Policy}
@@ -209,7 +281,9 @@ theorem prune_exact (p : Proj) : PruneSpec p (withoutUnnecessaryResources p) :=
 still known exactly once (enabled or disabled), with its content carried over and only `depends_on` possibly smaller -/
 theorem partition_step {p q : Proj} (g : Good p) (o : Op) (hq : applyOp p o = .ok q) :
     Good q ∧ Carried p q := by
-  obtain ⟨h, w⟩ := g
+  obtain ⟨h, w, nk⟩ := g
+  suffices H : (Partition q ∧ SvcWF q) ∧ Carried p q from
+    ⟨⟨H.1.1, H.1.2, namesOK_of_carried nk H.1.1 H.2⟩, H.2⟩
   cases o with
   | profiles P =>
     cases hq
@@ -222,8 +296,10 @@ theorem partition_step {p q : Proj} (g : Good p) (o : Op) (hq : applyOp p o = .o
     · rw [e]; exact ⟨⟨h, w⟩, Carried.refl w⟩
     · rw [e]
       have hp := withProfiles_partition h (enableProfiles p ns)
-      exact ⟨⟨hp, svcWF_of_find_eq w (fun k s e => by rw [← find_withProfiles h _ k]; exact e) hp⟩,
-        carried_of_find_eq w (find_withProfiles h _)⟩
+      have w0 : SvcWF (withProfiles p (enableProfiles p ns)) :=
+        svcWF_of_find_eq w (fun k s e => by rw [← find_withProfiles h _ k]; exact e) hp
+      exact ⟨⟨resolveEnabled_partition hp, svcWF_resolveEnabled w0⟩,
+        (carried_of_find_eq w (find_withProfiles h _)).trans (carried_resolveEnabled w0)⟩
   | disable ns =>
     cases hq
     have := withServicesDisabled_inv h w ns
@@ -236,12 +312,12 @@ theorem partition_step {p q : Proj} (g : Good p) (o : Op) (hq : applyOp p o = .o
         have e := withSelectedServices_ok h.1 hn hw
         simp only [applyOp] at hq
         rw [e] at hq; cases hq
-        have hsub := forEachService_subset h.1 hn hw
+        have hsub := forEachService_subset h.1 nk.services hn hw
         exact ⟨⟨selectResult_partition h hsub, selectResult_svcWF h w set⟩, selectResult_carried h hsub w⟩
       | noSuchService =>
         have : ns.isEmpty = false := by cases ns <;> simp_all
         simp [applyOp, withSelectedServices, hw, this] at hq
-      | outOfFuel => exact absurd hw (forEachService_fuel h.1 ns pol)
+      | outOfFuel => exact absurd hw (forEachService_fuel h.1 nk.services ns pol)
   | prune =>
     cases hq
     exact ⟨⟨h, w⟩, Carried.refl w⟩
@@ -251,7 +327,7 @@ project unchanged), the enabled and disabled sets stay disjoint sets and every s
 theorem partition_inv {p : Proj} (g : Good p) (ops : List Op) :
     Good (run p ops) ∧ Carried p (run p ops) := by
   induction ops generalizing p with
-  | nil => exact ⟨g, Carried.refl g.2⟩
+  | nil => exact ⟨g, Carried.refl g.2.1⟩
   | cons o os ih =>
     rw [run_cons]
     cases ho : applyOp p o with
@@ -267,7 +343,7 @@ theorem history_conserved {p : Proj} (g : Good p) (ops : List Op) : Conserved p 
   conserved_of_carried (partition_inv g ops).1.1 (partition_inv g ops).2
 
 /-- "enabled services are active under the recorded profiles" (what a load establishes) is kept by every operation -/
-theorem profilesOK_step {p q : Proj} (h : Partition p) (ok : ProfilesOK p) (o : Op) (hq : applyOp p o = .ok q) :
+theorem profilesOK_step {p q : Proj} (h : Partition p) (nk : NamesOK p) (ok : ProfilesOK p) (o : Op) (hq : applyOp p o = .ok q) :
     ProfilesOK q := by
   cases o with
   | profiles P => cases hq; exact withProfiles_profilesOK h P
@@ -275,7 +351,7 @@ theorem profilesOK_step {p q : Proj} (h : Partition p) (ok : ProfilesOK p) (o : 
     cases hq
     rcases withServicesEnabled_eq p ns with e | e
     · rw [e]; exact ok
-    · rw [e]; exact withProfiles_profilesOK h _
+    · rw [e]; exact profilesOK_resolveEnabled (withProfiles_profilesOK h _)
   | disable ns =>
     cases hq
     intro kv hkv
@@ -306,7 +382,7 @@ theorem profilesOK_step {p q : Proj} (h : Partition p) (ok : ProfilesOK p) (o : 
       | noSuchService =>
         have : ns.isEmpty = false := by cases ns <;> simp_all
         simp [applyOp, withSelectedServices, hw, this] at hq
-      | outOfFuel => exact absurd hw (forEachService_fuel h.1 ns pol)
+      | outOfFuel => exact absurd hw (forEachService_fuel h.1 nk.services ns pol)
   | prune => cases hq; exact ok
 
 /-- hence by every history -/
@@ -316,7 +392,7 @@ theorem profilesOK_inv {p : Proj} (g : Good p) (ok : ProfilesOK p) (ops : List O
   | cons o os ih =>
     rw [run_cons]
     cases ho : applyOp p o with
-    | ok q => exact ih (partition_step g o ho).1 (profilesOK_step g.1 ok o ho)
+    | ok q => exact ih (partition_step g o ho).1 (profilesOK_step g.1 g.2.2 ok o ho)
     | err => exact ih g ok
     | fuel => exact ih g ok
 
@@ -349,7 +425,12 @@ theorem enable_perm {p p' : Proj} (h : Partition p) (e : SameProj p p') (names :
   unfold withServicesEnabled
   split
   · exact ⟨es, ed, e.2.2.1⟩
-  · rw [ep]; exact profiles_perm h e _
+  · rw [ep]
+    have P := profiles_perm h e (enableProfiles p' names)
+    refine ⟨fun k => ?_, P.2.1, P.2.2⟩
+    rw [lookup_resolveEnabled_services, lookup_resolveEnabled_services, P.1 k]
+    show Option.map (resolveEnvSvc p.environment) _ = Option.map (resolveEnvSvc p'.environment) _
+    rw [e.2.2.2.2.2.2.2]
 
 /-- `WithServicesDisabled` is a function of the project and the (ordered) list of names -/
 theorem disable_perm {p p' : Proj} (h : Partition p) (e : SameProj p p') (names : List String) :
@@ -376,19 +457,22 @@ theorem prune_perm {p p' : Proj} (e : SameProj p p') :
     intro f k
     simp only [List.mem_flatMap]
     exact ⟨fun ⟨a, ha, hk⟩ => ⟨a, e.1.mem_iff.1 ha, hk⟩, fun ⟨a, ha, hk⟩ => ⟨a, e.1.mem_iff.2 ha, hk⟩⟩
-  obtain ⟨_, _, _, e1, e2, e3, e4⟩ := e
+  obtain ⟨_, _, _, e1, e2, e3, e4, _⟩ := e
   refine ⟨fun k => ?_, fun k => ?_, fun k => ?_, fun k => ?_⟩ <;>
     simp only [withoutUnnecessaryResources, lookup_pick, mem, e1, e2, e3, e4]
 
-/-- the provable part of `op_perm` for `WithSelectedServices` (the full statement is refuted in `Neg/C15.lean`):
-the *enabled* half of the result does not depend on the iteration order -/
-theorem select_perm_partial {p p' : Proj} (h : Partition p) (e : SameProj p p') {names : List String} {pol : Policy}
+/-- `WithSelectedServices` (after the `fix:` commit) is a function of the project, the names and the policy:
+whatever the iteration order of the service map, both halves of the result are the same maps.
+(Before the fix only the enabled half was: `Neg/C15.lean`.) -/
+theorem select_perm {p p' : Proj} (h : Partition p) (nk : NamesOK p) (e : SameProj p p') {names : List String} {pol : Policy}
     {q q' : Proj} (hq : withSelectedServices p names pol = .ok q) (hq' : withSelectedServices p' names pol = .ok q') :
-    LookEq q.services q'.services := by
+    LookEq q.services q'.services ∧ LookEq q.disabled q'.disabled ∧ q.profiles = q'.profiles := by
   have h' := partition_perm h e
+  have nk' := namesOK_perm nk e.1 e.2.1
   have es := lookEq_of_perm e.1 h.1
+  have ed := lookEq_of_perm e.2.1 h.2.1
   by_cases hn : names = []
-  · subst hn; cases hq; cases hq'; exact es
+  · subst hn; cases hq; cases hq'; exact ⟨es, ed, e.2.2.1⟩
   · have ne : names.isEmpty = false := by cases names <;> simp_all
     cases hw : forEachService p names pol with
     | ok set =>
@@ -398,47 +482,89 @@ theorem select_perm_partial {p p' : Proj} (h : Partition p) (e : SameProj p p') 
         rw [withSelectedServices_ok h'.1 hn hw'] at hq'
         cases hq; cases hq'
         have same : ∀ x, x ∈ set ↔ x ∈ set' := fun x => by
-          rw [forEachService_reach h.1 hn hw, forEachService_reach h'.1 hn hw']
+          rw [forEachService_reach h.1 nk.services hn hw, forEachService_reach h'.1 nk'.services hn hw']
           exact ⟨reach_lookEq es, reach_lookEq (fun k => (es k).symm)⟩
-        intro k
-        show lookup k (selectedPruned set p.services) = lookup k (selectedPruned set' p'.services)
-        rw [lookup_selectedPruned h.1, lookup_selectedPruned h'.1, es k]
-        have pe : pruneDeps set = pruneDeps set' := by
-          funext s; unfold pruneDeps; congr 1
-          apply List.filter_congr; intro d _
-          by_cases a : d.1 ∈ set
-          · simp [a, (same _).1 a]
-          · have : d.1 ∉ set' := fun c => a ((same _).2 c)
+        have un : unselected set p.services = unselected set' p'.services := by
+          unfold unselected
+          apply sortNames_eq_of_perm
+          unfold nonSelected
+          have : (fun kv : String × Svc => decide (kv.1 ∉ set)) = (fun kv => decide (kv.1 ∉ set')) := by
+            funext kv
+            by_cases a : kv.1 ∈ set
+            · simp [a, (same _).1 a]
+            · have : kv.1 ∉ set' := fun c => a ((same _).2 c)
+              simp [a, this]
+          rw [this]
+          exact (e.1.filter _).map _
+        refine ⟨fun k => ?_, ?_, ?_⟩
+        · show lookup k (selectedPruned set p.services) = lookup k (selectedPruned set' p'.services)
+          rw [lookup_selectedPruned h.1, lookup_selectedPruned h'.1, es k]
+          have pe : pruneDeps set = pruneDeps set' := by
+            funext s; unfold pruneDeps; congr 1
+            apply List.filter_congr; intro d _
+            by_cases a : d.1 ∈ set
+            · simp [a, (same _).1 a]
+            · have : d.1 ∉ set' := fun c => a ((same _).2 c)
+              simp [a, this]
+          by_cases a : k ∈ set
+          · simp [a, (same k).1 a, pe]
+          · have : k ∉ set' := fun c => a ((same k).2 c)
             simp [a, this]
-        by_cases a : k ∈ set
-        · simp [a, (same k).1 a, pe]
-        · have : k ∉ set' := fun c => a ((same k).2 c)
-          simp [a, this]
+        · show LookEq (withServicesDisabled p (unselected set p.services)).disabled
+            (withServicesDisabled p' (unselected set' p'.services)).disabled
+          rw [un]
+          exact (disable_perm h e _).2
+        · show (withServicesDisabled p _).profiles = (withServicesDisabled p' _).profiles
+          rw [withServicesDisabled_profiles, withServicesDisabled_profiles]; exact e.2.2.1
       | noSuchService => simp [withSelectedServices, hw', ne] at hq'
-      | outOfFuel => exact absurd hw' (forEachService_fuel h'.1 names pol)
+      | outOfFuel => exact absurd hw' (forEachService_fuel h'.1 nk'.services names pol)
     | noSuchService => simp [withSelectedServices, hw, ne] at hq
-    | outOfFuel => exact absurd hw (forEachService_fuel h.1 names pol)
+    | outOfFuel => exact absurd hw (forEachService_fuel h.1 nk.services names pol)
 
-/-- the full-strength statement fails on the unchanged tree (witness in `Neg/C15.lean`) -/
-theorem select_perm_fails : ¬Neg.SelectPermInvariant := Neg.select_not_perm_invariant
+/-- success or failure of `WithSelectedServices` does not depend on the iteration order either -/
+theorem select_perm_outcome {p p' : Proj} (g : Good p) (e : SameProj p p') {names : List String} (hn : names ≠ [])
+    (pol : Policy) : withSelectedServices p names pol = .err ↔ withSelectedServices p' names pol = .err := by
+  have es := lookEq_of_perm e.1 g.1.1
+  have g' : Good p' := ⟨partition_perm g.1 e, fun kv hkv => g.2.1 kv (by
+    rcases List.mem_append.1 hkv with a | a
+    · exact List.mem_append_left _ (e.1.mem_iff.2 a)
+    · exact List.mem_append_right _ (e.2.1.mem_iff.2 a)), namesOK_perm g.2.2 e.1 e.2.1⟩
+  have mr : ∀ x, MissingRequired p.services pol x ↔ MissingRequired p'.services pol x := by
+    intro x
+    unfold MissingRequired
+    rw [es x]
+    cases lookup x p'.services with
+    | none => simp [sat]
+    | some s => simp only [sat, mem_keys_lookEq es]
+  rw [select_error_iff g hn, select_error_iff g' hn]
+  constructor
+  · rintro (⟨n, a, b⟩ | ⟨x, a, b⟩)
+    · exact .inl ⟨n, a, fun c => b ((mem_keys_lookEq es n).2 c)⟩
+    · exact .inr ⟨x, reach_lookEq es a, (mr x).1 b⟩
+  · rintro (⟨n, a, b⟩ | ⟨x, a, b⟩)
+    · exact .inl ⟨n, a, fun c => b ((mem_keys_lookEq es n).1 c)⟩
+    · exact .inr ⟨x, reach_lookEq (fun k => (es k).symm) a, (mr x).2 b⟩
+
+/-- before the `fix:` commit the full-strength statement failed (witness in `Neg/C15.lean`, on the old loop) -/
+theorem select_perm_failed_before_fix : ¬Neg.SelectPermInvariant := Neg.select_not_perm_invariant
 
 /-! ## non-vacuity -/
 
-def exSvc (profiles : List String) (deps : AL Dep) : Svc :=
-  { image := "i", profiles := profiles, deps := deps, nets := ["n"], vols := [("volume", "v")], secrets := [], build := some ["s"], configs := [] }
+def exSvc (name : String) (profiles : List String) (deps : AL Dep) : Svc :=
+  { name := name, image := "i", profiles := profiles, deps := deps, nets := ["n"], vols := [("volume", "v")], secrets := [], build := some ["s"], configs := [] }
 
 def exProj : Proj :=
-  { services := [("web", exSvc [] [("db", ⟨true, "service_started"⟩), ("cache", ⟨false, "service_started"⟩)]),
-                 ("db", exSvc [] []), ("job", exSvc [] [("db", ⟨true, "service_healthy"⟩)])]
-    disabled := [("cache", exSvc ["p"] [])]
+  { services := [("web", exSvc "web" [] [("db", ⟨true, "service_started"⟩), ("cache", ⟨false, "service_started"⟩)]),
+                 ("db", exSvc "db" [] []), ("job", exSvc "job" [] [("db", ⟨true, "service_healthy"⟩)])]
+    disabled := [("cache", exSvc "cache" ["p"] [])]
     profiles := [], networks := [("n", "N"), ("m", "M")], volumes := [("v", "V")], secrets := [("s", "S"), ("t", "T")], configs := [] }
 
-example : Good exProj := ⟨by decide, by decide⟩
+example : Good exProj := ⟨by decide, by decide, by decide⟩
 example : withSelectedServices exProj ["web"] .deps = .ok (selectResult exProj ["db", "web"]) := by decide
 example : keys (selectResult exProj ["db", "web"]).services = ["web", "db"] ∧
     keys (selectResult exProj ["db", "web"]).disabled = ["cache", "job"] := by decide
 example : Reach exProj.services .deps ["web"] "db" :=
-  (forEachService_reach (p := exProj) (by decide) (by decide) (set := ["db", "web"]) (by decide) "db").1 (by decide)
+  (forEachService_reach (p := exProj) (by decide) (fun kv hkv => by revert kv; decide) (by decide) (set := ["db", "web"]) (by decide) "db").1 (by decide)
 example : keys (withServicesEnabled exProj ["cache"]).services = ["web", "db", "job", "cache"] ∧
     (withServicesEnabled exProj ["cache"]).profiles = ["p"] := by decide
 example : keys (withoutUnnecessaryResources exProj).networks = ["n"] ∧
